@@ -113,6 +113,14 @@ func forced() []rtCase {
 		`sub f { esi; restart; goto a; a: log "x"; }`,
 		`sub f { synthetic "a"; synthetic.base64 "YQ=="; synthetic {"a"} "b"; }`,
 		`sub f { log "a" + b + {"c"}; }`,
+		// leaf payloads at the chunk and size-field boundaries (one statement each: string, long string, identifier, comment-free)
+		`sub f { set var.s = "` + big(255) + `"; set var.s = "` + big(256) + `"; set var.s = "` + big(257) + `"; }`,
+		`sub f { set var.s = "` + big(511) + `"; set var.s = "` + big(512) + `"; set var.s = "` + big(513) + `"; }`,
+		`sub f { set var.s = "` + big(1023) + `"; set var.s = "` + big(1024) + `"; set var.s = "` + big(1025) + `"; set var.s = "` + big(1536) + `"; }`,
+		`sub f { set var.s = "` + big(2048) + `"; set var.s = "` + big(4095) + `"; set var.s = "` + big(4096) + `"; set var.s = "` + big(4097) + `"; }`,
+		`sub f { set var.s = {"` + big(512) + `"}; set var.s = {"` + big(1024) + `"}; set req.http.` + big(512) + ` = "x"; set req.http.` + big(1024) + ` = "y"; }`,
+		`sub f { set var.s = "` + big(32767) + `"; set var.s = "` + big(32768) + `"; set var.s = "` + big(65534) + `"; }`,
+		`table t { "` + big(512) + `": "` + big(1024) + `", }`,
 		`sub f { set var.s = "` + big(65535) + `"; }`,
 		`sub f { set var.s = "` + big(65536) + `"; }`,
 		`sub f { set var.s = "` + big(200000) + `"; }`,
@@ -182,7 +190,9 @@ func genCases(g *fw.GenCtx) {
 		if len(s.Src) > 20000 || s.Snippet {
 			continue
 		}
-		full := i < len(forced()) || r.Intn(g.Pick(8, 2)) == 0
+		// the systematic families are quadratic in the encoding size: the boundary-length leaves of the
+		// forced corpus go through the round trip and the PRNG mutations only
+		full := (i < len(forced()) || r.Intn(g.Pick(8, 2)) == 0) && len(s.Src) < 1500
 		g.Emit("dec", decCase{Src: s.Src, Seed: r.Int63(), N: g.Pick(150, 4000), Full: full})
 	}
 	// raw byte strings
@@ -224,6 +234,13 @@ func genCases(g *fw.GenCtx) {
 		b := bytes.Repeat([]byte{byte(ft), 0xff, 0xff}, 1<<16/3)
 		g.Emit("raw", rawCase{B64: []string{base64.StdEncoding.EncodeToString(b)}})
 	}
+	// else-if frames nest through decodeIfStatement itself: one unit = IF_STATEMENT header, empty keyword,
+	// a one-byte condition, an empty block, and the next IF_STATEMENT in the else-if position
+	{
+		unit := []byte{0x1e, 0, 0, 0x36, 0, 0, 0x33, 0, 1, 1, 0x11, 0, 0, 1}
+		b := bytes.Repeat(unit, g.Pick(1000000, 3000000))
+		g.Emit("raw", rawCase{B64: []string{base64.StdEncoding.EncodeToString(b)}})
+	}
 	// much deeper bombs (0.3 / 1 million levels, behind a statement header that expects an expression and bare):
 	// they overflow the 64 MiB worker stack unless the decoder bounds its recursion
 	for ft := 1; ft < 80; ft += g.Pick(4, 1) {
@@ -237,6 +254,9 @@ func genCases(g *fw.GenCtx) {
 }
 
 // ---------------------------------------------------------------------------------------------
+
+// prevEncodes are the statements of the previous file of this worker (monitor of the Encodes buffer)
+var prevEncodes []ast.Statement
 
 var cmpOpts = &astcmp.Opts{
 	Ignore: map[string]bool{
@@ -498,6 +518,16 @@ func runRT(oc *fw.Outcome, rc rtCase) {
 		oc.Violate("encs-error", "Encodes returned an error: "+err.Error(), map[string]any{"source": clip(rc.Src, 400)})
 		return
 	}
+	// the bytes belong to the caller: a later Encodes call (of another file) must not change them
+	keep := append([]byte{}, bin...)
+	if prevEncodes != nil {
+		fw.Guard(func() { codec.NewEncoder().Encodes(prevEncodes) }) // nolint
+	}
+	if !bytes.Equal(keep, bin) {
+		oc.Violate("encs:bytes-overwritten-by-next-call", "the byte slice returned by Encodes changed when Encodes was called again for other statements", map[string]any{"source": clip(rc.Src, 400)})
+		bin = keep
+	}
+	prevEncodes = top
 	out, derr, pk, pmsg := decodeGuarded(bin)
 	if pk != "" || derr != nil {
 		if len(failed) == 0 {
